@@ -73,6 +73,10 @@ def build_grid(ux, spec):
         kw = dict(face_lon=np.array(spec["face_lon"], dtype=float), face_lat=np.array(spec["face_lat"], dtype=float))
     if "face_x" in spec:
         kw = {c: np.array(spec[c], dtype=float) for c in ("face_x", "face_y", "face_z")}
+    if "edges" in spec:  # a source-supplied edge table (its own edge numbering / endpoint order)
+        kw["edge_node_connectivity"] = np.array(spec["edges"], dtype=np.int64)
+    if "edge_lon" in spec:  # source-supplied edge centres
+        kw["edge_lon"], kw["edge_lat"] = np.array(spec["edge_lon"], dtype=float), np.array(spec["edge_lat"], dtype=float)
     return ux.Grid.from_topology(node_lon=np.array(spec["lon"], dtype=float), node_lat=np.array(spec["lat"], dtype=float),
                                  face_node_connectivity=t, fill_value=INT_FILL, **kw)
 
@@ -81,7 +85,9 @@ def describe(spec):
     if "file" in spec:
         return dict(file=spec["file"])
     return dict(name=spec["name"], n_node=len(spec["lon"]), n_face=len(spec["faces"]),
-                file_centres="lonlat" if "face_lon" in spec else "xyz" if "face_x" in spec else False)
+                file_centres="lonlat" if "face_lon" in spec else "xyz" if "face_x" in spec else False,
+                supplied_edges="edges" in spec, supplied_edge_centres="edge_lon" in spec,
+                copy_of_source=bool(spec.get("copy_of_source")))
 
 
 def lonlat(g, kind):
@@ -217,7 +223,13 @@ class Env:
         self.sspec, self.dspec, self.tag = sspec, dspec, tag
         self.same = sspec is dspec or sspec == dspec
         self.src = build_grid(ux, sspec)
-        self.dst = self.src if self.same else build_grid(ux, dspec)
+        if dspec.get("copy_of_source"):
+            self.dst = self.src.copy()
+        else:
+            self.dst = self.src if self.same else build_grid(ux, dspec)
+        # two DIFFERENT Grid objects that `Grid.__eq__` calls equal (same nodes and face table) may
+        # still report different edge numbering / face centres / edge centres
+        self.eq_distinct = self.src is not self.dst and bool(self.src == self.dst)
         self.notes = set()   # e.g. "welzl": face centres were recomputed with method="welzl"
         self.counts = {}
         self.refresh()
@@ -345,8 +357,10 @@ def run_case(ctx, ux, env: Env, case, hist=None, after=None):
             return f"C12/{'nn' if method == 'nn' else 'idw'}/single-destination/{what}"
         if ambiguous:
             return f"C12/source-kind-by-length/{DIM[skind]}-taken-for-{DIM[KINDS[int(kk[1])]]}"
-        return f"C12/{'nn' if method == 'nn' else 'idw'}/{what}/{skind}->{dkind}/{coord}"
+        return f"C12/{'nn' if method == 'nn' else 'idw'}/{what}/{skind}->{dkind}/{coord}" + ("/equal-but-distinct-grids" if env.eq_distinct else "")
 
+    if env.eq_distinct:
+        ctx.hit("grids-equal-but-distinct")
     da = ux.UxDataArray(data.copy(), dims=dims, uxgrid=env.src, name="v")
     nontriv = n_src > 1
     ctx.case(key, nontrivial=nontriv, sample=short if n_src <= 12 and len(lead) <= 1 else None)
@@ -486,6 +500,8 @@ def cases_for(ctx, env: Env, budget):
         prio += [("node", "face", "spherical"), ("face", "face", "cartesian")]
     if env.same:
         prio += [(s, s, rng.choice(["spherical", "cartesian"])) for s in KINDS]
+    if env.eq_distinct:
+        prio = [(s, s, c) for s in KINDS for c in ("spherical", "cartesian")] + prio
     seen, order = set(), []
     for x in prio + combos:
         if x not in seen:
@@ -514,6 +530,46 @@ def cases_for(ctx, env: Env, budget):
         if rng.random() < 0.25 and n_src >= 2:
             out.append(dict(method="idw", skind=skind, dkind=dkind, coord=coord, lead=[], k=rng.choice([1, n_src + 1]), power=2,
                             data=rand_data(rng, (), n_src)))
+    return out
+
+
+def eq_pairs(ctx, ux):
+    """pairs of DISTINCT grids that `Grid.__eq__` calls equal (same nodes, same face-node table)
+    but whose optional source-supplied tables differ: the result of a remap may depend on the two
+    grids only through the centre coordinates they report, never on their identity or equality"""
+    rng = ctx.rng
+    out = []
+    for rep in range(ctx.n(2, 8)):
+        m = rng.choice([meshes.hull(rng.choice([7, 9, 12]), rng), meshes.dual_of(meshes.hull(rng.choice([8, 10]), rng)),
+                        jitter(meshes.cube_sphere(1).rotated(meshes.random_rotation(rng)), rng)])
+        B = spec_of(m, m.kind + "(derived)")
+        g = build_grid(ux, B)
+        E0 = [[int(a), int(b)] for a, b in g.edge_node_connectivity.values]
+        elon, elat = lonlat(g, "edge")
+        flon, flat = lonlat(g, "face")
+
+        def perm_edges():
+            e = [list(r) for r in E0]
+            rng.shuffle(e)
+            return [r[::-1] if rng.random() < 0.5 else r for r in e]
+
+        def with_(name, **kw):
+            return dict(B, name=m.kind + "(" + name + ")", **kw)
+
+        amp = rng.choice([0.05, 0.2, 0.4])
+        E1, E2 = with_("supplied edge table", edges=perm_edges()), with_("supplied edge table'", edges=perm_edges())
+        fl, fa = off_centres(m, rng)
+        F1 = with_("supplied face centres inside", face_lon=[float(x) for x in fl], face_lat=[float(x) for x in fa])
+        nl, na = moved(rng, flon, flat, amp)
+        F2 = with_("supplied face centres near", face_lon=nl, face_lat=na)
+        cl, ca = moved(rng, elon, elat, amp)
+        C1 = with_("supplied edge centres", edge_lon=cl, edge_lat=ca)
+        K = dict(B, name=m.kind + "(copy)", copy_of_source=True)
+        for sspec, dspec, tag in [(B, E1, "derived->edge table"), (E1, B, "edge table->derived"), (E1, E2, "edge table->edge table'"),
+                                  (B, F1, "derived->face centres"), (F1, B, "face centres->derived"), (F2, F1, "face centres'->face centres"),
+                                  (B, F2, "derived->face centres'"), (B, C1, "derived->edge centres"), (C1, B, "edge centres->derived"),
+                                  (B, K, "derived->copy()"), (E1, dict(E1, copy_of_source=True), "edge table->copy()")]:
+            out.append((sspec, dspec, "eq:" + tag))
     return out
 
 
@@ -609,6 +665,12 @@ def run(ctx):
         ctx.hit("corpus")
         run_input(ctx, ux, inp)
     histories(ctx, ux)
+    for sspec, dspec, tag in eq_pairs(ctx, ux):
+        env = Env(ux, sspec, dspec, tag)
+        if not env.eq_distinct:
+            ctx.notes.append(f"generator: {tag} is not an equal-but-distinct pair")
+        for case in cases_for(ctx, env, ctx.n(10, 18)):
+            run_case(ctx, ux, env, case)
     pairs = grid_pairs(ctx)
     budget = ctx.n(8, 18)
     for sspec, dspec, tag in pairs:
